@@ -226,6 +226,49 @@ def direct_elements(fails, rng, n, only=None):
                 fails.add("C14:natural-not-abundance-sum", "Sample(%r) differs from the abundance-weighted isotopes" % el.symbol, **where)
 
 
+LABELS = [("Thermal", "thermalXS"), ("Resonance", "resonance"), ("in hr", "Thalf_hrs"), ("parent", "Thalf_parent"),
+          ("thermal", "thermalXS_parent"), ("resonance", "resonance_parent"), ("Abund", "abundance")]
+
+
+def direct_table(fails):
+    """third reading of activation.dat: the file's own header lines say which column is which; every
+    record served by the implementation must hold the numbers of the columns so labelled"""
+    import os
+    path = os.path.join(os.path.dirname(act.__file__), "activation.dat")
+    lines = [l.split("\t") for l in open(path).read().split("\n") if l]
+    head = [c for c in lines if c[0].strip() in ("", "xx")]
+    data = [c for c in lines if c[0].strip() not in ("", "xx")]
+    col = {}
+    for lab, name in LABELS + [("Z", "Z"), ("A", "A"), ("Nuclide", "daughter")]:
+        hits = [i for c in head for i, x in enumerate(c) if x.strip() == lab]
+        if len(hits) != 1:
+            fails.add("C14:table-header", "header label %r found %d times in activation.dat" % (lab, len(hits)), label=lab)
+            return
+        col[name] = hits[0]
+    seen = {}
+    for c in data:
+        z, a = int(c[col["Z"]]), int(c[col["A"]])
+        j = seen.get((z, a), 0)
+        seen[(z, a)] = j + 1
+        try:
+            ai = periodictable.elements[z][a].neutron_activation[j]
+        except Exception as e:  # noqa
+            fails.add("C14:table-row-missing", "row %d of %d-%d is not served: %r" % (j, z, a, e), Z=z, A=a, j=j)
+            continue
+        for lab, name in LABELS:
+            txt = c[col[name]]
+            txt = txt[1:-1] if txt.startswith('"') else txt
+            want = float(txt) if txt.strip() else 0.0
+            got = getattr(ai, name, None)
+            if got != want:
+                fails.add("C14:table-field:%s" % name,
+                          "%s of %d-%d -> %s is %r, the column labelled %r of activation.dat says %r"
+                          % (name, z, a, ai.daughter, got, lab, want), Z=z, A=a, j=j, field=name, observed=got, expected=want)
+    n_served = sum(len(getattr(iso, "neutron_activation", [])) for el in periodictable.elements for iso in el)
+    if n_served != len(data):
+        fails.add("C14:table-row-count", "%d records served, %d data lines in activation.dat" % (n_served, len(data)))
+
+
 def main(argv):
     rows = all_rows()
     if argv[1:2] == ["--case"]:
@@ -240,6 +283,11 @@ def main(argv):
         direct_case(fails, iso, j, ai, inp, rest, o, random.Random(0), True)
         json.dump(dict(cases=[case_term(iso, j, inp, rest, o)], meta=[describe(iso, j, ai, inp, rest, o)],
                        direct_fails=fails), sys.stdout)
+        return
+    if argv[1:2] == ["--table"]:
+        fails = Fails()
+        direct_table(fails)
+        json.dump(dict(cases=[], meta=[], direct_fails=fails), sys.stdout)
         return
     if argv[1:2] == ["--sample"]:
         fails = Fails()
@@ -258,6 +306,7 @@ def main(argv):
             meta.append(describe(iso, j, ai, inp, rest, o))
             direct_case(fails, iso, j, ai, inp, rest, o, rng, full=(i < 12))
     direct_elements(fails, random.Random(seed + 17), 2 if npts <= 10 else 6)
+    direct_table(fails)
     keys = ["%d|%d|%s|%s|%s" % (iso.number, iso.isotope, ai.daughter, ai.reaction, "y" if ai.fast else "n") for iso, j, ai in rows]
     json.dump(dict(cases=cases, meta=meta, direct_fails=fails, nrows=len(rows), row_keys=keys), sys.stdout)
 
